@@ -279,7 +279,11 @@ func runC15(c *Ctx) {
 	}
 
 	// ---------------------------------------------------------------- R5
-	c.rule("R5", "response OPT iff client OPT, DO mirrored, deep-copied with the context, appended by the handler only when present", 5)
+	c.rule("R5", "response OPT iff client OPT, DO mirrored, deep-copied with the context, appended by the handler only when present", 6)
+	if hh := c.fn(relHandler, "EntryHandler", "Handle"); hh != nil {
+		// every reply leaves through the one pack call behind the RespOpt step (no second reply path without it)
+		checkSinglePackSite(c, hh)
+	}
 	if nc != nil {
 		respOK, doOK := false, false
 		eachInstr(nc, func(in ssa.Instruction) {
@@ -446,4 +450,9 @@ func runC15(c *Ctx) {
 		})
 		c.check(good && n > 0, "copy-drops-opt", cno.Pos(), "additional records are copied only when they are not OPT", "the cache's copy keeps OPT records: cached answers carry a stale OPT that is then duplicated")
 	}
+
+	// ---------------------------------------------------------------- R8
+	c.rule("R8", "a copy of a query context has its own query message (and so its own upstream OPT): options a plugin adds in one branch do not appear in the others", 2)
+	checkContextCopyDeep(c)
+
 }
